@@ -772,6 +772,10 @@ class OpsMixin(object):
                 self.exec_block(strip_docstring_body(fi.node.body), env)
             except ReturnSignal as r:
                 return r.value
+            except RaiseSignal as e:
+                if getattr(e, "where", None) is None:
+                    e.where = "%s:%s %s" % (fi.module.relpath, getattr(e.node, "lineno", "?"), fi.qualname)
+                raise
             return NONE
         finally:
             self.stack.pop()
